@@ -869,8 +869,6 @@ struct Worker {
 
   void chain(const std::string &prefix, int maxd, int level) {
     std::string h = prefix;
-    if (level == 0)
-      chain(h + "R", bd.Bb, 1); // restart on an empty directory
     for (int d = 1; d <= maxd; ++d) {
       if (R->out_of_time()) {
         R->hit_deadline(fmt("B=%d at history %s", B, h.c_str()));
@@ -882,13 +880,15 @@ struct Worker {
         R->sample(fmt("{\"B\": %d, \"history\": \"%sD\", \"dump_ok\": %s}", B, h.c_str(),
                       ok ? "true" : "false"));
       if (!ok)
-        return;
+        break;
       h += "D";
       if (level == 0)
         chain(h + "R", bd.Bb, 1);
       else if (level == 1)
         chain(h + "R", bd.Cc, 2);
     }
+    if (level == 0)
+      chain(prefix + "R", bd.Bb, 1); // process restart on an empty directory
   }
 };
 
